@@ -147,7 +147,9 @@ class FieldsWorld(World):
             # the user re-uses one collection object for several channels (ch0 = ch1 = chan)
             items.append({"t": "ref", "to": rng.choice(colls)})
         if k < 75:
-            return {"t": "dict", "items": [[f"f{i}", it] for i, it in enumerate(items)]}
+            # any non-empty string is a legal field name (reserved gaps are often `_rsvd0`)
+            style = rng.choice(["f{}", "f{}", "f{}", "_f{}", "_rsvd{}", "f{}_", "F{}", "__f{}"])
+            return {"t": "dict", "items": [[style.format(i), it] for i, it in enumerate(items)]}
         return {"t": "list", "items": items}
 
     def gen_config(self, rng, prop):
@@ -156,7 +158,8 @@ class FieldsWorld(World):
             coll = self._gen_coll(rng, 0, racc)
             annot = int(coll["t"] == "dict" and rng.chance(0.4))
             return {"kind": "register", "access": racc, "coll": coll, "annot": annot,
-                    "annot_base": int(bool(annot) and rng.chance(0.3))}
+                    "annot_base": int(bool(annot) and rng.chance(0.3)),
+                    "annot_sub": int(bool(annot) and rng.chance(0.25))}
         if rng.chance(0.2):
             from worlds.components import gen_register
             return {"kind": "regreal", "reg": gen_register(rng)}
@@ -263,6 +266,11 @@ class FieldsWorld(World):
                     cls = type("AnnotReg", (base,), {"__annotations__": dict(coll)})
                 else:
                     cls = type("AnnotReg", (base,), {"__annotations__": dict(coll)}, access=racc)
+                if config.get("annot_sub"):
+                    # a subclass without annotations of its own (it only overrides behaviour)
+                    # has the fields of the class it extends
+                    cls = type("SubReg", (cls,), {"verif_marker": 1})
+                    stats.probe("unannotated_subclass_of_annotated_class")
                 reg = cls()
             else:
                 reg = csr.Register(coll, access=racc)
@@ -413,6 +421,36 @@ class FieldsWorld(World):
                             continue
                         if hasattr(a, nm):
                             p.set(getattr(a, nm), v)
+                # R and W fields pass strobes (and W fields their data) through in the same
+                # cycle, whatever their width: composed, the field sees the register's strobe
+                off = 0
+                for (path, l), a in zip(leaves, acts):
+                    w = shape_width(l["shape"])
+                    if l["act"] == "R" and readable:
+                        stats.checks += 1
+                        if p.get(a.r_stb) != (int(op.get("rs", 0)) & 1):
+                            raise Violation("C12", "R-field-strobe-not-passed-through", t,
+                                            f"field {path} (R, width {w}): r_stb={p.get(a.r_stb)} "
+                                            f"while the register is read-strobed "
+                                            f"{int(op.get('rs', 0)) & 1}")
+                    if l["act"] == "W" and writable:
+                        stats.checks += 1
+                        if p.get(a.w_stb) != (int(op.get("ws", 0)) & 1):
+                            raise Violation("C12", "W-field-strobe-not-passed-through", t,
+                                            f"field {path} (W, width {w}): w_stb={p.get(a.w_stb)} "
+                                            f"while the register is write-strobed "
+                                            f"{int(op.get('ws', 0)) & 1}")
+                        if w:
+                            exp = ((int(op.get("wd", 0)) & ((1 << W) - 1)) >> off) & ((1 << w) - 1)
+                            got = p.get(a.w_data) & ((1 << w) - 1)
+                            stats.checks += 1
+                            if got != exp:
+                                raise Violation("C12", "W-field-data-not-passed-through", t,
+                                                f"field {path} (W) at bit {off}: w_data={got:#x}, "
+                                                f"written {exp:#x}")
+                        if not w:
+                            stats.probe("zero_width_strobe_field_in_register")
+                    off += w
                 if readable and W:
                     bus = p.get(el.r_data)
                     off = 0
@@ -561,8 +599,10 @@ class FieldsWorld(World):
             if config.get("init") is not None:
                 yield dict(config, init=None), ops
         else:
+            if config.get("annot_sub"):
+                yield dict(config, annot_sub=0), ops
             if config.get("annot"):
-                yield dict(config, annot=0), ops
+                yield dict(config, annot=0, annot_sub=0, annot_base=0), ops
 
     def sample(self, config, ops):
         return {"config": config, "first_ops": ops[:4], "n_ops": len(ops)}
